@@ -46,6 +46,10 @@ def isLiveTok (d : String) : Bool := d.startsWith "live" && ((d.drop 4).toString
 
 def step (s : Option Ring) (t : List String) : Option Ring × List String :=
   match s, t with
+  -- `initbig`: the harness only reserves the storage; for the model a ring of that size is a ring of that size
+  | _, ["initbig", n] => match parseSize? n with
+    | some n => (some (init n), stateLines (init n))
+    | none => (s, ["bad-op"])
   | _, ["init", n] => match parseSize? n with
     | some n => (some (init n), stateLines (init n))
     | none => (s, ["bad-op"])
